@@ -4,7 +4,7 @@
 # version. Output binary: $1 (default /verif/bin/rscheck-iso).
 out=${1:-/verif/bin/rscheck-iso}
 export GOFLAGS=-mod=mod GOPROXY=off GOSUMDB=off GOTOOLCHAIN=local GOWORK=off
-d=/tmp/chk
+d=${ISO_DIR:-/tmp/chk}
 mkdir -p $d && rsync -a --delete /verif/checker/ $d/
 cd $d
 for try in 1 2 3 4 5 6; do
@@ -13,7 +13,7 @@ for try in 1 2 3 4 5 6; do
   [ -z "$pk" ] && { echo "$err" | head; exit 1; }
   echo "package $pk does not build; using committed version"
   rm -rf $d/$pk/*.go
-  (cd /verif && git archive HEAD checker/$pk | tar -x -C /tmp/chk.tar.d 2>/dev/null) || { mkdir -p /tmp/chk.tar.d && cd /verif && git archive HEAD checker/$pk | tar -x -C /tmp/chk.tar.d; }
-  cp /tmp/chk.tar.d/checker/$pk/*.go $d/$pk/ ; rm -rf /tmp/chk.tar.d
+  (cd /verif && git archive HEAD checker/$pk | tar -x -C $d.tar.d 2>/dev/null) || { mkdir -p $d.tar.d && cd /verif && git archive HEAD checker/$pk | tar -x -C $d.tar.d; }
+  cp $d.tar.d/checker/$pk/*.go $d/$pk/ ; rm -rf $d.tar.d
 done
 echo "$err" | head; exit 1
